@@ -42,10 +42,11 @@ func NewStatesPaletteContainerWithData(length int, data []uint64, pat []BlocksSt
 	case 1, 2, 3, 4:
 		n = 4
 		p = &linearPalette[BlocksState]{
-			values: pat,
+			values: withCap(pat, 1<<n),
 			bits:   n,
 		}
 	case 5, 6, 7, 8:
+		pat = withCap(pat, 1<<n)
 		ids := make(map[BlocksState]int)
 		for i, v := range pat {
 			ids[v] = i
@@ -83,7 +84,7 @@ func NewBiomesPaletteContainerWithData(length int, data []uint64, pat []BiomesSt
 		p = &singleValuePalette[BiomesState]{pat[0]}
 	case 1, 2, 3:
 		p = &linearPalette[BiomesState]{
-			values: pat,
+			values: withCap(pat, 1<<n),
 			bits:   n,
 		}
 	default:
@@ -95,6 +96,14 @@ func NewBiomesPaletteContainerWithData(length int, data []uint64, pat []BiomesSt
 		palette: p,
 		data:    NewBitStorage(n, length, data),
 	}
+}
+
+// withCap copies a saved palette into a slice whose capacity is the number of ids its width
+// can address: the palettes take the spare capacity for the number of ids still free.
+func withCap[T State](pat []T, size int) []T {
+	values := make([]T, len(pat), max(len(pat), size))
+	copy(values, pat)
+	return values
 }
 
 func (p *PaletteContainer[T]) Get(i int) T {
